@@ -410,7 +410,8 @@ Definition fdd_alt (st : rstate) (id : N) (rq : drequest) : R (rstate * drequest
                 | Some (_, g) => negb (ostr_eqb (Some (o_client o)) (current_client g))
                 | None => false
                 end in
-    if skip then Ok (st1, rq1, if caughtup then FilterCaughtup else SkipRequest)
+    if skip then Ok (st1, rq1, if caughtup && match publishes with [] => true | _ => false end
+                               then FilterCaughtup else SkipRequest)
     else
       let rq2 := {| dr_filter := dr_filter rq1; dr_idx := dr_idx rq1; dr_qos := dr_qos rq1;
                     dr_cursor := next; dr_read := dr_read rq1 + lenN publishes;
